@@ -480,6 +480,7 @@ def spec_formula(I, fn, args, ctx=()):
     parts = []
     cover = []
     saved = (I.decisions, I.pos, I.pc, I.heap, I.writes, I.local_ids, I.path_obligations, I.keep, I.defs)
+    saved_base = list(getattr(I, "base_pc", ()))
     I.base_pc = list(ctx)
     try:
         for p in I.explore(lambda: I.call(fn, list(args), {})):
@@ -492,7 +493,7 @@ def spec_formula(I, fn, args, ctx=()):
                 continue
             parts.append(z3.And(*p["pc"], lift_bool(v)))
     finally:
-        I.base_pc = []
+        I.base_pc = saved_base
         (I.decisions, I.pos, I.pc, I.heap, I.writes, I.local_ids, I.path_obligations, I.keep, I.defs) = saved
     return (z3.Or(*parts) if parts else z3.BoolVal(False)), z3.Or(*cover)
 
